@@ -42,6 +42,183 @@ pub enum Case {
         targets: Vec<usize>,
         old_rust_target: bool,
     },
+    /// namespaces with equally named types, templates instantiated over them, classes with
+    /// several (polymorphic) bases
+    Zoo {
+        zoo: Zoo,
+        targets: Vec<usize>,
+        old_rust_target: bool,
+        namespaces: bool,
+    },
+}
+
+#[derive(Clone, Copy, Debug, Serialize, Deserialize, PartialEq, Eq)]
+pub enum ZPrim {
+    Char,
+    Short,
+    Int,
+    LongLong,
+    Double,
+    VoidPtr,
+}
+
+impl ZPrim {
+    const ALL: &'static [ZPrim] = &[ZPrim::Char, ZPrim::Short, ZPrim::Int, ZPrim::LongLong, ZPrim::Double, ZPrim::VoidPtr];
+    fn c(self) -> &'static str {
+        match self {
+            ZPrim::Char => "char",
+            ZPrim::Short => "short",
+            ZPrim::Int => "int",
+            ZPrim::LongLong => "long long",
+            ZPrim::Double => "double",
+            ZPrim::VoidPtr => "void*",
+        }
+    }
+}
+
+#[derive(Clone, Debug, Serialize, Deserialize, PartialEq, Eq)]
+pub enum TArg {
+    Prim(ZPrim),
+    /// (namespace index, item index), scaled into what exists
+    Item(u16, u16),
+    /// an earlier class
+    Class(u16),
+    /// Box<arg>
+    Box(Box<TArg>),
+}
+
+#[derive(Clone, Debug, Serialize, Deserialize, PartialEq, Eq)]
+pub enum ZField {
+    Prim(ZPrim),
+    Arr(ZPrim, u8),
+    Item(u16, u16),
+    Class(u16),
+    Box(TArg),
+    Pair(TArg, TArg),
+    PtrBox(TArg),
+}
+
+#[derive(Clone, Debug, Serialize, Deserialize, PartialEq, Eq)]
+pub struct ZClass {
+    pub bases: Vec<u16>,
+    pub polymorphic: bool,
+    pub fields: Vec<ZField>,
+}
+
+#[derive(Clone, Debug, Serialize, Deserialize, PartialEq, Eq)]
+pub struct Zoo {
+    /// per namespace: items, each a list of member types; the item names repeat across namespaces
+    pub spaces: Vec<Vec<Vec<ZPrim>>>,
+    pub classes: Vec<ZClass>,
+}
+
+const ITEM_NAMES: &[&str] = &["Item", "Node", "Elem"];
+const SPACE_NAMES: &[&str] = &["a", "b", "c"];
+
+impl Zoo {
+    fn pick<'a, T>(v: &'a [T], i: u16) -> Option<(usize, &'a T)> {
+        if v.is_empty() {
+            None
+        } else {
+            let k = (i as usize * v.len()) >> 16;
+            Some((k, &v[k]))
+        }
+    }
+    fn item_c(&self, s: u16, i: u16) -> Option<String> {
+        let (si, sp) = Self::pick(&self.spaces, s)?;
+        let (ii, _) = Self::pick(sp, i)?;
+        Some(format!("{}::{}", SPACE_NAMES[si % SPACE_NAMES.len()], ITEM_NAMES[ii % ITEM_NAMES.len()]))
+    }
+    fn arg_c(&self, a: &TArg, before: usize) -> String {
+        match a {
+            TArg::Prim(p) => p.c().to_string(),
+            TArg::Item(s, i) => self.item_c(*s, *i).unwrap_or_else(|| "int".into()),
+            TArg::Class(k) => {
+                if before == 0 {
+                    "int".into()
+                } else {
+                    format!("C{}", (*k as usize * before) >> 16)
+                }
+            }
+            TArg::Box(inner) => format!("Box<{} >", self.arg_c(inner, before)),
+        }
+    }
+    /// C type of a field of class `ci` and whether it is an instantiation held by value
+    fn field_c(&self, ci: usize, f: &ZField) -> (String, String, bool) {
+        match f {
+            ZField::Prim(p) => (p.c().to_string(), String::new(), false),
+            ZField::Arr(p, n) => (p.c().to_string(), format!("[{}]", (*n % 7) + 1), false),
+            ZField::Item(s, i) => (self.item_c(*s, *i).unwrap_or_else(|| "int".into()), String::new(), false),
+            ZField::Class(k) => (if ci == 0 { "int".into() } else { format!("C{}", (*k as usize * ci) >> 16) }, String::new(), false),
+            ZField::Box(a) => (format!("Box<{} >", self.arg_c(a, ci)), String::new(), true),
+            ZField::Pair(a, b) => (format!("Pair<{}, {} >", self.arg_c(a, ci), self.arg_c(b, ci)), String::new(), true),
+            ZField::PtrBox(a) => (format!("Box<{} >*", self.arg_c(a, ci)), String::new(), false),
+        }
+    }
+    fn bases_of(&self, ci: usize) -> Vec<usize> {
+        let mut v: Vec<usize> = vec![];
+        if ci == 0 {
+            return v;
+        }
+        for b in &self.classes[ci].bases {
+            let k = (*b as usize * ci) >> 16;
+            if !v.contains(&k) {
+                v.push(k);
+            }
+        }
+        v
+    }
+    pub fn render(&self) -> String {
+        let mut s = String::from("template <class T> struct Box { T v; int tag; };\ntemplate <class T, class U> struct Pair { T a; U b; };\n");
+        for (si, sp) in self.spaces.iter().enumerate().take(SPACE_NAMES.len()) {
+            s.push_str(&format!("namespace {} {{\n", SPACE_NAMES[si]));
+            for (ii, it) in sp.iter().enumerate().take(ITEM_NAMES.len()) {
+                s.push_str(&format!("  struct {} {{", ITEM_NAMES[ii]));
+                for (k, p) in it.iter().enumerate() {
+                    s.push_str(&format!(" {} m{k};", p.c()));
+                }
+                s.push_str(" };\n");
+            }
+            s.push_str("}\n");
+        }
+        for (ci, c) in self.classes.iter().enumerate() {
+            s.push_str(&format!("struct C{ci}"));
+            let bases = self.bases_of(ci);
+            for (k, b) in bases.iter().enumerate() {
+                s.push_str(if k == 0 { " : " } else { ", " });
+                s.push_str(&format!("C{b}"));
+            }
+            s.push_str(" {\n");
+            if c.polymorphic {
+                s.push_str(&format!("  virtual void vm{ci}();\n"));
+            }
+            for (k, f) in c.fields.iter().enumerate() {
+                let (t, suffix, _) = self.field_c(ci, f);
+                s.push_str(&format!("  {t} f{ci}_{k}{suffix};\n"));
+            }
+            s.push_str("};\n");
+        }
+        s
+    }
+}
+
+fn zoo_strategy() -> BoxedStrategy<Zoo> {
+    let prim = (0..ZPrim::ALL.len()).prop_map(|i| ZPrim::ALL[i]);
+    let item = proptest::collection::vec(prim.clone(), 1..4);
+    let space = proptest::collection::vec(item, 1..=3);
+    let leaf_arg = prop_oneof![2 => prim.clone().prop_map(TArg::Prim), 4 => (any::<u16>(), any::<u16>()).prop_map(|(s, i)| TArg::Item(s, i)), 2 => any::<u16>().prop_map(TArg::Class)];
+    let arg = prop_oneof![5 => leaf_arg.clone(), 1 => leaf_arg.prop_map(|a| TArg::Box(Box::new(a)))];
+    let field = prop_oneof![
+        3 => prim.clone().prop_map(ZField::Prim),
+        1 => (prim, 0u8..7).prop_map(|(p, n)| ZField::Arr(p, n)),
+        2 => (any::<u16>(), any::<u16>()).prop_map(|(s, i)| ZField::Item(s, i)),
+        1 => any::<u16>().prop_map(ZField::Class),
+        4 => arg.clone().prop_map(ZField::Box),
+        2 => (arg.clone(), arg.clone()).prop_map(|(a, b)| ZField::Pair(a, b)),
+        1 => arg.prop_map(ZField::PtrBox),
+    ];
+    let class = (proptest::collection::vec(any::<u16>(), 0..5), proptest::bool::weighted(0.5), proptest::collection::vec(field, 1..5)).prop_map(|(bases, polymorphic, fields)| ZClass { bases, polymorphic, fields });
+    (proptest::collection::vec(space, 1..=3), proptest::collection::vec(class, 1..7)).prop_map(|(spaces, classes)| Zoo { spaces, classes }).boxed()
 }
 
 const SPECIAL_FIELDS: &[&str] = &["_bindgen_align", "_address", "_bindgen_opaque_blob", "bindgen_union_field", "vtable_", "_base"];
@@ -65,6 +242,8 @@ struct Expect {
     /// (rust field name, C expression of the offset relative to this type)
     offsets: Vec<(String, Option<String>)>,
     class: String,
+    /// module of the Rust item when it is not the root module of the run
+    rust_module: Option<String>,
 }
 
 fn find_field<'a>(item: &'a Item, c_name: &str) -> Option<&'a crate::rs::Field> {
@@ -89,7 +268,7 @@ fn expect_comp(inv: &Inventory, module: &str, top_c: &str, c: &Comp, rust_ty: &s
         } else {
             (None, None)
         };
-        out.push(Expect { rust_ty: rust_ty.to_string(), size_expr: se, align_expr: ae, offsets: vec![], class: "opaque".into() });
+        out.push(Expect { rust_ty: rust_ty.to_string(), size_expr: se, align_expr: ae, offsets: vec![], class: "opaque".into(), rust_module: None });
         return;
     }
     let (size_expr, align_expr) = if !reachable_by_name {
@@ -99,7 +278,7 @@ fn expect_comp(inv: &Inventory, module: &str, top_c: &str, c: &Comp, rust_ty: &s
     } else {
         (Some(format!("sizeof((({top_c}*)0)->{c_path})")), Some(format!("_Alignof(__typeof__((({top_c}*)0)->{c_path}))")))
     };
-    let mut e = Expect { rust_ty: rust_ty.to_string(), size_expr, align_expr, offsets: vec![], class: if c.is_union { "union".into() } else if c.has_bitfields() { "bitfield-neighbour".into() } else { "struct".into() } };
+    let mut e = Expect { rust_ty: rust_ty.to_string(), size_expr, align_expr, offsets: vec![], class: if c.is_union { "union".into() } else if c.has_bitfields() { "bitfield-neighbour".into() } else { "struct".into() }, rust_module: None };
     let dot = |p: &str, f: &str| if p.is_empty() { f.to_string() } else { format!("{p}.{f}") };
     let mut anon = 0usize;
     // the offset of this comp inside the top-level type, as a C expression
@@ -317,7 +496,8 @@ impl C06 {
             out.fail("model-vs-bindings", format!("target {target}: {p}\n{header}"));
         }
         // ---- (1) completeness over the *emitted* inventory
-        for it in inv.items.iter().filter(|i| (i.kind == "struct" || i.kind == "union") && i.module == module) {
+        let all_modules = expects.iter().any(|e| e.rust_module.is_some());
+        for it in inv.items.iter().filter(|i| (i.kind == "struct" || i.kind == "union") && (i.module == module || (all_modules && (module.is_empty() || i.module.starts_with(module))))) {
             if Inventory::is_helper(&it.name) || !it.generics.is_empty() || skip_types.contains(&it.name) {
                 continue;
             }
@@ -329,8 +509,8 @@ impl C06 {
             if it.fields.len() == 1 && it.fields[0].name == "0" {
                 continue;
             }
-            let asserts = inv.assert_for(module, &it.name);
-            let class = expects.iter().find(|e| e.rust_ty == it.name).map(|e| e.class.clone()).unwrap_or_else(|| "?".into());
+            let asserts = inv.assert_for(&it.module, &it.name);
+            let class = expects.iter().find(|e| e.rust_ty == it.name && e.rust_module.as_deref().unwrap_or(module) == it.module).map(|e| e.class.clone()).unwrap_or_else(|| "?".into());
             if asserts.len() != 1 {
                 out.fail(format!("completeness/assert-count-{}/{class}", asserts.len()), format!("target {target} flags {flags:?}: `{}` has {} assertion blocks\n{header}", it.name, asserts.len()));
                 continue;
@@ -353,19 +533,24 @@ impl C06 {
         // ---- (2) numbers
         let mut exprs: Vec<String> = vec![];
         let mut keys: Vec<(String, String, String)> = vec![]; // (rust type, what, class)
+        let mut key_modules: Vec<String> = vec![];
         for e in &expects {
+            let em = e.rust_module.clone().unwrap_or_else(|| module.to_string());
             if let Some(x) = &e.size_expr {
                 exprs.push(x.clone());
                 keys.push((e.rust_ty.clone(), "size".into(), e.class.clone()));
+                key_modules.push(em.clone());
             }
             if let Some(x) = &e.align_expr {
                 exprs.push(x.clone());
                 keys.push((e.rust_ty.clone(), "align".into(), e.class.clone()));
+                key_modules.push(em.clone());
             }
             for (fname, x) in &e.offsets {
                 if let Some(x) = x {
                     exprs.push(x.clone());
                     keys.push((e.rust_ty.clone(), format!("offset:{fname}"), e.class.clone()));
+                    key_modules.push(em.clone());
                 }
             }
         }
@@ -373,8 +558,10 @@ impl C06 {
         for (ty, c_expr) in &inst_expect {
             exprs.push(format!("sizeof({c_expr})"));
             keys.push((ty.clone(), "inst-size".into(), "instantiation".into()));
+            key_modules.push(String::new());
             exprs.push(format!("alignof({c_expr})"));
             keys.push((ty.clone(), "inst-align".into(), "instantiation".into()));
+            key_modules.push(String::new());
         }
         let src_name = format!("table_{}.c", target.replace('-', "_"));
         std::fs::write(env.dir.join(&src_name), c_table_source(header_file, &exprs, cpp)).ok();
@@ -392,10 +579,12 @@ impl C06 {
         let host = target == TARGETS[0];
         for (k, (ty, what, class)) in keys.iter().enumerate() {
             let want = table[k];
-            let asserts = inv.assert_for(module, ty);
+            let asserts = inv.assert_for(&key_modules[k], ty);
             if what.starts_with("inst-") {
-                // instantiation assertions are keyed by the type expression
-                let found: Vec<&rs::LayoutAssert> = inv.asserts.iter().filter(|a| a.ty.replace(' ', "") == ty.replace(' ', "")).collect();
+                // instantiation assertions are keyed by the type expression (paths are absolute
+                // from `root` when namespaces are on)
+                let canon = |t: &str| t.replace(' ', "").replace("root::", "");
+                let found: Vec<&rs::LayoutAssert> = inv.asserts.iter().filter(|a| canon(&a.ty) == canon(ty)).collect();
                 if found.is_empty() {
                     out.fail("completeness/instantiation-missing", format!("target {target}: no assertion for `{ty}`\n{header}"));
                     continue;
@@ -478,7 +667,8 @@ impl Property for C06 {
         let targets = proptest::collection::vec(1..TARGETS.len(), 1..3);
         prop_oneof![
             3 => (program_strategy(GenCfg::data_types()), targets.clone(), proptest::bool::weighted(0.4), proptest::bool::weighted(0.3)).prop_map(|(prog, targets, old_rust_target, namespaces)| Case::C { prog, targets, old_rust_target, namespaces, keep_known: false }),
-            1 => (c07::graph_strategy(7), targets, proptest::bool::weighted(0.4)).prop_map(|(graph, targets, old_rust_target)| Case::Cpp { graph, targets, old_rust_target }),
+            1 => (c07::graph_strategy(7), targets.clone(), proptest::bool::weighted(0.4)).prop_map(|(graph, targets, old_rust_target)| Case::Cpp { graph, targets, old_rust_target }),
+            1 => (zoo_strategy(), targets, proptest::bool::weighted(0.5), proptest::bool::weighted(0.5)).prop_map(|(zoo, targets, old_rust_target, namespaces)| Case::Zoo { zoo, targets, old_rust_target, namespaces }),
         ]
         .boxed()
     }
@@ -583,7 +773,7 @@ impl Property for C06 {
                         let mut v = vec![];
                         for (i, n) in g.nodes.iter().enumerate() {
                             if matches!(n.kind, c07::NodeKind::Class | c07::NodeKind::Union) && inv.find_type(&format!("N{i}")).is_some() {
-                                v.push(Expect { rust_ty: format!("N{i}"), size_expr: Some(format!("sizeof(N{i})")), align_expr: Some(format!("alignof(N{i})")), offsets: vec![], class: "class".into() });
+                                v.push(Expect { rust_ty: format!("N{i}"), size_expr: Some(format!("sizeof(N{i})")), align_expr: Some(format!("alignof(N{i})")), offsets: vec![], class: "class".into(), rust_module: None });
                             }
                         }
                         v
@@ -597,6 +787,80 @@ impl Property for C06 {
                 }
                 out.class("cpp");
                 out.sample = Some(json!({"header": header, "has_instantiations": has_inst}));
+            }
+            Case::Zoo { zoo, targets, old_rust_target, namespaces } => {
+                let header = zoo.render();
+                let file = "in.hpp";
+                std::fs::write(env.dir.join(file), &header).ok();
+                let mut flags: Vec<String> = vec![];
+                if *old_rust_target {
+                    flags.extend(["--rust-target".to_string(), "1.76".to_string()]);
+                }
+                if *namespaces {
+                    flags.push("--enable-cxx-namespaces".into());
+                }
+                let module = if *namespaces { "root" } else { "" };
+                let zref = zoo;
+                let inst_of = move |inv: &Inventory| -> Vec<(String, String)> {
+                    let mut inst: BTreeMap<String, String> = BTreeMap::new();
+                    for (ci, c) in zref.classes.iter().enumerate() {
+                        let Some(item) = inv.items.iter().find(|i| i.kind == "struct" && i.name == format!("C{ci}") && i.module == module) else { continue };
+                        if item.fields.iter().any(|f| f.name == "_bindgen_opaque_blob") {
+                            continue;
+                        }
+                        for (k, f) in c.fields.iter().enumerate() {
+                            let (t, _, by_value_inst) = zref.field_c(ci, f);
+                            if !by_value_inst {
+                                continue;
+                            }
+                            if let Some(rf) = item.fields.iter().find(|x| x.name == format!("f{ci}_{k}")) {
+                                inst.insert(rf.ty.clone(), t);
+                            }
+                        }
+                    }
+                    inst.into_iter().collect()
+                };
+                let skip: Vec<String> = vec!["Box".into(), "Pair".into()];
+                let n_inst = zoo.classes.iter().enumerate().map(|(ci, c)| c.fields.iter().filter(|f| zoo.field_c(ci, f).2).count()).sum::<usize>();
+                let many_poly_bases = (0..zoo.classes.len()).any(|ci| zoo.bases_of(ci).iter().filter(|b| zoo.classes[**b].polymorphic).count() >= 2);
+                let mut ts: Vec<usize> = vec![0];
+                ts.extend(targets.iter().map(|t| t % TARGETS.len()));
+                ts.dedup();
+                for t in ts {
+                    let build = |inv: &Inventory, _problems: &mut Vec<String>| -> Vec<Expect> {
+                        let mut v = vec![];
+                        for (ci, c) in zoo.classes.iter().enumerate() {
+                            let Some(item) = inv.items.iter().find(|i| i.kind == "struct" && i.name == format!("C{ci}") && i.module == module) else { continue };
+                            let opaque = item.fields.iter().any(|f| f.name == "_bindgen_opaque_blob");
+                            let offsets = if opaque { vec![] } else { (0..c.fields.len()).map(|k| (format!("f{ci}_{k}"), Some(format!("offsetof(C{ci}, f{ci}_{k})")))).collect() };
+                            v.push(Expect { rust_ty: format!("C{ci}"), size_expr: Some(format!("sizeof(C{ci})")), align_expr: Some(format!("alignof(C{ci})")), offsets, class: "class".into(), rust_module: Some(module.to_string()) });
+                        }
+                        for (si, sp) in zoo.spaces.iter().enumerate().take(SPACE_NAMES.len()) {
+                            for (ii, it) in sp.iter().enumerate().take(ITEM_NAMES.len()) {
+                                let (m, n) = if *namespaces { (format!("root::{}", SPACE_NAMES[si]), ITEM_NAMES[ii].to_string()) } else { (String::new(), format!("{}_{}", SPACE_NAMES[si], ITEM_NAMES[ii])) };
+                                if !inv.items.iter().any(|i| i.kind == "struct" && i.name == n && i.module == m) {
+                                    continue;
+                                }
+                                let c = format!("{}::{}", SPACE_NAMES[si], ITEM_NAMES[ii]);
+                                let offsets = (0..it.len()).map(|k| (format!("m{k}"), Some(format!("offsetof({c}, m{k})")))).collect();
+                                v.push(Expect { rust_ty: n, size_expr: Some(format!("sizeof({c})")), align_expr: Some(format!("alignof({c})")), offsets, class: "namespaced".into(), rust_module: Some(m) });
+                            }
+                        }
+                        v
+                    };
+                    self.check_one(&mut out, env, file, &header, true, TARGETS[t], &flags, &build, &inst_of, &skip);
+                    if n_inst > 0 {
+                        out.nontrivial(format!("{:x}|zoo-inst|{}", fnv(&header), TARGETS[t]));
+                    }
+                }
+                out.class("zoo");
+                if many_poly_bases {
+                    out.class("zoo:several-polymorphic-bases");
+                }
+                if *namespaces {
+                    out.class("zoo:namespaces");
+                }
+                out.sample = Some(json!({"header": header, "instantiation_members": n_inst, "flags": flags}));
             }
         }
         out
